@@ -5,6 +5,14 @@ import json, os, re
 ROOT = '/verif'
 m = json.load(open(f'{ROOT}/mutants/matrix.json'))
 NOTES = {
+ 'C01h': 'first missed: every test model returned a fresh dict per call; a model with ONE pre-allocated output dict, overwritten in place at every call, was added to the shared harness (`buffer` configs, n_inner = 1) of C01 / C02 / C03',
+ 'C02h': 'first missed: same `buffer` model family (C02 compares with the closed form computed from the pure model function)',
+ 'C09h': 'first missed: every arrival carried a unique value; streams of equal-valued observations (distinct dict objects told apart by identity; skipped with a note when a storage keeps copies) added',
+ 'C11h': 'first missed: the read masks of C11d ran over a position-coded stream only (all values distinct); now every read mask x EVERY stream over {0,1} (k = 2, 3, 4) and {1,0,-2} (k = 2)',
+ 'C12h': 'first missed, twice: the oracle read get() before get_normalized() only - now get() / tracker() / repr / get_normalized() are read again in several orders without an update in between and must agree; and the oracle kept the dict the tracker handed out (the mutant normalised exactly that object in place, so the comparison was with itself) - it now snapshots what it reads',
+ 'C13h': 'first missed: predictions were fresh dicts; wrapper B of the two wrappers sharing the metric now always receives ONE caller-owned dict overwritten in place before each call',
+ 'C18h': 'first missed: the public walk_through_tree was never called with observations lacking the split feature; every tree cell now ends with sparse walks through every feature tree (entropy monitor + digest)',
+ 'C19h': 'first missed: the long-lived imputer received a fresh instance dict per call with a storage update in between; it is now also called on ONE caller-owned dict overwritten in place between consecutive calls (earlier arrivals, then the current one)',
  'C01g': 'decided by C14 (the change is in RiverWrapper): an online river model that learns between two evaluations of the same input was added there (the wrapper must report the CURRENT prediction); C01 drives pure test models',
  'C02g': 'first missed: the imputer spy was truthy; it now defines __len__ returning 0 (a user imputer may be falsy when the explainer is built - the library must test `is None`)',
  'C04g': 'NOT flagged, by design: manifests only for sparse collections.defaultdict observations. A scenario family for them was built (C04, C06) and caught C04g / C06g / C15g, but it raised alarms on two behaviour-preserving refactorings (R12 copies rows with dict(), R3 reads the stored row without copying it) - Mappings whose reads insert keys are outside the properties; the family was removed again (section 9.4, item 24)',
